@@ -238,8 +238,11 @@ func runCase(t vh.TB, c *Case) vh.Outcome {
 	}
 	isAdmin := func(caller string) bool { return caller == "header-admin" || caller == "oauth-admin" }
 	// keepAlive makes a backend live the way its agent's poll does
+	notLive := ""
 	keepAlive := func(b bdef) {
-		r.Do("agent", "GET", "/agent/pending", agentHeaders(b.id, ""), nil, aerig.Identity{OAuthEmail: b.agent}, 250*time.Millisecond)
+		if !r.KeepAlive(b.id, b.agent) {
+			notLive = b.id
+		}
 	}
 	pendingOf := func(backendID string) []*pending {
 		var out []*pending
@@ -573,6 +576,9 @@ func runCase(t vh.TB, c *Case) vh.Outcome {
 					if early.Status != 401 {
 						return fail(i, "an anonymous end-user request answered %d, expected 401", early.Status)
 					}
+				} else if want != nil && notLive != "" {
+					o.Inconclusive = "the proxy did not record the harness agent's poll of backend " + notLive
+					return o
 				} else if want != nil {
 					return fail(i, "user %s on %s should be routed to backend %s (registered for %s) but was answered %d at once", id.Email, st.Path, want.id, want.endUser, early.Status)
 				} else if early.Status != 404 {
